@@ -12,8 +12,11 @@ trap cleanup EXIT
 ( cd "$root/repo" && git apply "$patch" ) || { echo "== $name: patch does not apply"; exit 2; }
 cp /repo/Cargo.lock "$root/repo/" 2>/dev/null
 mkdir -p "$root/harness"
-cp -r /verif/harness/src /verif/harness/Cargo.lock /verif/harness/.cargo "$root/harness/"
-sed "s#path = \"/repo\"#path = \"$root/repo\"#" /verif/harness/Cargo.toml > "$root/harness/Cargo.toml"
+# HARNESS_FROM: take the harness sources from another checkout of /verif (e.g. a worktree of an earlier commit), to
+# measure what an earlier version of the checks would have reported
+hf="${HARNESS_FROM:-/verif/harness}"
+cp -r "$hf/src" "$hf/Cargo.lock" /verif/harness/.cargo "$root/harness/"
+sed "s#path = \"/repo\"#path = \"$root/repo\"#" "$hf/Cargo.toml" > "$root/harness/Cargo.toml"
 export HBV_HARNESS_DIR="$root/harness" HBV_TARGET_DIR="$root/target" HBV_REPLAY_DIR="$root/replays" HBV_EVIDENCE_DIR="$root/evidence"
 cd /verif
 for id in "$@"; do
